@@ -27,7 +27,7 @@ theorem witnessEmpty_wf : CaseWF witnessEmpty := by
   intro op hop
   simp only [witnessEmpty, List.mem_singleton] at hop
   subst hop
-  exact ⟨rfl, by decide⟩
+  exact ⟨rfl, fun x hx => by simp at hx; omega⟩
 
 /-- The full-strength statement is false: with no VRP installed `validate` returns no state at
     all (the replay `corpus/C12/open-empty-table.case`). -/
@@ -78,8 +78,8 @@ theorem validate_eq_rfc6811 (vrps : List (Src × Net × Nat × Nat)) (hwf : ∀ 
     have hx : vrpOf v.1 v.2.1 v.2.2.1 v.2.2.2 ∈ abs (tableOf vrps) :=
       (hmem _).2 (List.mem_map_of_mem (f := fun v => vrpOf v.1 v.2.1 v.2.2.1 v.2.2.2) hv)
     intro hnil
-    have : vrpOf v.1 v.2.1 v.2.2.1 v.2.2.2 ∈ (abs (tableOf vrps)).filter (fun x => x.fam = r.fam) := by
-      simp [hx, vrpOf, hf]
+    have : vrpOf v.1 v.2.1 v.2.2.1 v.2.2.2 ∈ (abs (tableOf vrps)).filter (fun x => x.fam = r.fam) :=
+      List.mem_filter.2 ⟨hx, by simp [vrpOf, hf]⟩
     rw [abs_fam_filter, hnil] at this
     simp [absTrie] at this
   rw [validate_state hi hr localAsn path hnil, rfc6811_congr hmem]
